@@ -787,6 +787,17 @@ impl Mon {
                 ("risk", Some(g)) => info.signers.contains(&g.risk_admin),
                 _ => true,
             };
+            // an instruction of a delegated role must not have the effect of the group admin's
+            // instruction: bank flags outside the two emissions bits belong to the group admin
+            if matches!(info.kind, Kind::SetupEmissions | Kind::UpdateEmissionsParameters) {
+                for (bk, pre, post) in &info.banks {
+                    if let (Some(pre), Some(post), Some(g)) = (pre, post, &g) {
+                        if (pre.flags ^ post.flags) & !0b11 != 0 && !info.signers.contains(&g.admin) {
+                            self.r.violate("C08", &format!("C08/{}/admin-only-bank-flags-changed-without-admin-signature", info.kind.name()), format!("bank {}: flags {:#b} -> {:#b}", bk, pre.flags, post.flags));
+                        }
+                    }
+                }
+            }
             self.r.distinct(&("role", info.kind.name(), role));
             if !ok {
                 self.r.violate("C08", &format!("C08/{}/accepted-without-{}-signature", info.kind.name(), role), format!("signers {:?}", info.signers));
